@@ -145,17 +145,32 @@ func genDurationStringC49(t *rapid.T) string {
 func TestVerifC49Duration(t *testing.T) {
 	st := verifkit.Begin(t, "C49")
 
-	// regression probe for the repaired defect (panicked before the fix)
-	func() {
-		defer func() {
-			if r := recover(); r != nil {
-				t.Fatalf("ParseDuration(%q) panicked: %v", "99999999999999999999d", r)
+	// regression probes for the repaired defect (panicked before the fix), and replay of a saved one
+	probes := []string{"99999999999999999999d", "-99999999999999999999h", "1y99999999999999999999m", " 9223372036854775808d "}
+	if rf := verifkit.ReplayFile(); rf != "" && strings.HasSuffix(rf, ".json") {
+		var c map[string]string
+		if err := verifkit.LoadReplay(&c); err != nil {
+			t.Fatalf("replay: %v", err)
+		}
+		probes = []string{c["input"]}
+	}
+	for _, p := range probes {
+		func() {
+			defer func() {
+				if r := recover(); r != nil {
+					verifkit.SaveReplay("C49", "duration-probe", map[string]string{"input": p})
+					t.Fatalf("ParseDuration(%q) panicked: %v", p, r)
+				}
+			}()
+			if d, err := ParseDuration(p); err == nil {
+				verifkit.SaveReplay("C49", "duration-probe", map[string]string{"input": p})
+				t.Fatalf("ParseDuration(%q) accepted a number beyond the int range as %+v", p, d)
 			}
 		}()
-		if d, err := ParseDuration("99999999999999999999d"); err == nil {
-			t.Fatalf("ParseDuration(99999999999999999999d) accepted as %+v", d)
-		}
-	}()
+	}
+	if verifkit.ReplayFile() != "" && strings.HasSuffix(verifkit.ReplayFile(), ".json") {
+		return
+	}
 
 	rapid.Check(t, func(t *rapid.T) {
 		s := genDurationStringC49(t)
